@@ -105,6 +105,10 @@ def corpus(build):
         for gen, inc in (("splitmix", 0x9e3779b97f4a7c15), ("wyrand", 0x2d358dccaa6c78a5)):
             sweep.append("word gen=%s seed=%d via=from_seed ops=u64,u32" % (gen, w))
             sweep.append("word gen=%s seed=%d via=from_seed ops=u64,u64" % (gen, (w - inc) & C.M64))
+    from .gen_int import structured_xoshiro_seeds
+    for sd in structured_xoshiro_seeds():
+        sweep.append("word gen=xoshiro seed=%d via=from_seed ops=u64,u32" % sd)
+        sweep.append("word gen=xoshiro seed=%d via=seeded ops=u64,f64" % sd)
     return sweep + literal_sweep("u64,u32,f64,fill:9,jump,u64,f32,fill:3") + [
         # published known-answer anchors and the crate's doc-test values
         "word gen=xoshiro state=1,2,3,4 via=serde ops=u64,u64,u64,u64",
@@ -127,3 +131,12 @@ def classify(req, model):
 
 def oracle(req, impl, build):
     return None
+
+
+def extra(binary, build, tier, rng):
+    """the streams of the word generators under LARGE byte fills (64 KiB and more, every alignment class): the little-endian word stream of the
+    same generator - the list-based model driver is too slow for fills of this size, so this part is judged on the implementation alone"""
+    if build != "dev" and tier == "quick":
+        return
+    from . import p_c10
+    yield from p_c10.big_fill_le_oracle(binary, build, "seeded stream under a large fill: ")
